@@ -29,7 +29,7 @@ LEVEL_NOTE = ("Trusted: Coq kernel, translator (chunk size, address length), Go 
               "values, not modelled), JSON documents (only the string member is compared), collations other than the binary one.")
 THEOREMS = ["vi_roundtrip", "vi_first_byte_nonzero", "ad_roundtrip", "blob_roundtrip", "blob_tree_roundtrip", "blob_forest_single_root", "first_diff_chunks",
             "compare_adaptive_correct", "compare_adaptive_repr_indep_general", "compare_adaptive_same_height", "compare_adaptive_small",
-            "compare_adaptive_repr_indep", "oracle_on_model", "compare_adaptive_order_refuted"]
+            "compare_adaptive_repr_indep", "compare_adaptive_antisym", "content_compare_antisym", "content_compare_repr_indep", "oracle_on_model", "compare_adaptive_order_refuted"]
 REFUTED = ["compare_adaptive_order_refuted"]
 RULE = ("store-level cases: pairs of byte strings given by (length, pattern, point mutations) with lengths around 0/20/21, the inline "
         "threshold (target-1, target), the chunk size (3999..4001, 8000), the fan-out boundary (799999..800001) and random ones, the second "
@@ -37,7 +37,7 @@ RULE = ("store-level cases: pairs of byte strings given by (length, pattern, poi
         "classes up to a few hundred kB in TEXT, BLOB and JSON columns, with duplicates and shared prefixes; non-trivial = non-empty value")
 ASSUMPTIONS = ["TEXT/JSON contents are ASCII letters and digits (binary collation = byte order)",
                "SQL tables use the default 2048-byte tuple length target; the out-of-band table forces the value out with 8 neighbours of min(len-1, 1000) bytes"]
-REQUIRED_TAGS = ["api", "sql", "inline-possible", "out-only", "single-chunk", "multi-chunk", "height-differs", "equal-values", "prefix-pair",
+REQUIRED_TAGS = ["cmp", "collated-mixed-width-across-chunk", "json-inline-left-oob-right", "collated-all-four-forms", "api", "sql", "inline-possible", "out-only", "single-chunk", "multi-chunk", "height-differs", "equal-values", "prefix-pair",
                  "sql-text", "sql-blob", "sql-json", "sql-forced-out", "sql-large", "sql-threshold", "sql-multi-chunk"]
 
 KEY_CMP = "nodeStore.CompareAdaptive:first-chunk-only"
@@ -153,9 +153,76 @@ def threshold_sql_cases(rng):
     return out
 
 
+# letters that utf8mb4_0900_ai_ci treats as equal, in encodings of different width
+EQUIV = {"e": ["e", "\u00e9", "E", "\u00e8", "\u00ea"], "a": ["a", "\u00e4", "A", "\u00e0"], "o": ["o", "\u00f6", "O"],
+         "u": ["u", "\u00fc"], "n": ["n", "\u00f1"], "c": ["c", "\u00e7"]}
+PLAIN_LETTERS = "bdfghjklmpqrstvwxyz"
+
+
+def gen_cmp_collated(rng, big=True):
+    """Two long strings equal under the accent/case-insensitive collation (or differing late) whose collation-equal runes have
+    different UTF-8 widths before the first chunk boundary, so the two rune streams drift off the 4000-byte chunk alignment."""
+    nchars = rng.choice([4100, 4500, 8100, 8300, 12100] if big else [30, 300, 2040, 3990])
+    skeleton = [rng.choice("eaouncbdfgst") for _ in range(nchars)]
+    def render(p_wide, head_wide):
+        out = []
+        for i, ch in enumerate(skeleton):
+            if ch in EQUIV:
+                pw = head_wide if i < 200 else p_wide
+                v = EQUIV[ch]
+                out.append(rng.choice(v[1:]) if rng.random() < pw else v[0])
+            else:
+                out.append(ch)
+        return out
+    x = render(rng.choice([0.0, 0.1, 0.5]), rng.choice([0.8, 0.5, 0.0]))
+    y = render(rng.choice([0.0, 0.1, 0.5]), rng.choice([0.0, 0.3, 0.9]))
+    mode = rng.random()
+    if mode < 0.45:
+        pass                                             # collation-equal
+    elif mode < 0.75:
+        i = rng.choice([nchars - 1, nchars - 2, nchars // 2, rng.randrange(nchars // 2, nchars)])
+        y[i] = rng.choice([c for c in PLAIN_LETTERS if c != skeleton[i]])   # differ late
+    elif mode < 0.9:
+        y = y + render(0.3, 0.3)[:rng.choice([1, 5, 100])]                    # x is a collation-prefix of y
+    else:
+        y = y[:rng.randrange(nchars // 2, nchars)]
+    xb, yb = "".join(x).encode("utf-8"), "".join(y).encode("utf-8")
+    ck = 0 if rng.random() < 0.8 else 1
+    target = rng.choice([2048, 2048, 60000, 60000, 5000])
+    return {"kind": "cmp", "ckind": ck, "target": target, "xs": xb.hex(), "ys": yb.hex(), "sql": ck == 0 and rng.random() < 0.25}
+
+
+def gen_cmp_json(rng):
+    def doc(n, a):
+        s = "".join(rng.choice("abcdefghij") for _ in range(3)) * (n // 3)
+        return '{"a": %d, "s": "%s", "l": [1, {"b": null}, true]}' % (a, s)
+    nx = rng.choice([10, 100, 900, 1900, 1990])
+    ny = rng.choice([2100, 2500, 3000, 3800, 1000, 100, 4500])
+    x = doc(nx, rng.randrange(3))
+    y = doc(ny, rng.randrange(3)) if rng.random() < 0.85 else x
+    if rng.random() < 0.3:
+        x, y = y, x
+    return {"kind": "cmp", "ckind": 2, "target": rng.choice([2048, 2048, 2048, 5000]), "xs": x.encode().hex(), "ys": y.encode().hex(), "sql": False}
+
+
+FIXED_CMP = [
+    # e vs é before the first chunk boundary, equal under ai_ci, > 4000 bytes, default target (both out of band)
+    {"kind": "cmp", "ckind": 0, "target": 2048, "xs": ("\u00e9" * 50 + "e" * 4100).encode("utf-8").hex(), "ys": ("e" * 4150).encode("utf-8").hex(), "sql": True},
+    {"kind": "cmp", "ckind": 0, "target": 60000, "xs": ("\u00e9" * 50 + "e" * 8100).encode("utf-8").hex(), "ys": ("e" * 8150).encode("utf-8").hex(), "sql": False},
+    # inline document on the left, out-of-band single-chunk document on the right, differing
+    {"kind": "cmp", "ckind": 2, "target": 2048, "xs": b'{"a": 1, "s": "x"}'.hex(), "ys": ('{"a": 2, "s": "%s"}' % ("y" * 2500)).encode().hex(), "sql": False},
+    {"kind": "cmp", "ckind": 2, "target": 2048, "xs": b'{"a": 3, "s": "x"}'.hex(), "ys": ('{"a": 2, "s": "%s"}' % ("y" * 2500)).encode().hex(), "sql": False},
+]
+
+
 def gen_cases(rng, tier):
     quick = tier == "quick"
     cases = [dict(c) for c in FIXED]
+    cases += [dict(c) for c in FIXED_CMP]
+    for _ in range(30 if quick else 1500):
+        cases.append(gen_cmp_collated(rng, big=rng.random() < 0.8))
+    for _ in range(30 if quick else 1500):
+        cases.append(gen_cmp_json(rng))
     cases += threshold_sql_cases(rng)
     n_api, n_sql = (110, 14) if quick else (4000, 400)
     if quick:
@@ -178,8 +245,22 @@ def cq_nlist(l):
     return "[" + "; ".join(str(int(x)) for x in l) + "]"
 
 
+def _cq_oz(l):
+    return cq_list("None" if c is None else "(Some (%d)%%Z)" % c for c in l)
+
+
 def coq_case(case, out):
     o = out.get("obs") or {}
+    if case["kind"] == "cmp":
+        c = o.get("cmp")
+        if c is None:
+            return "(ICmp {| c_kind := %d; c_inline_x := false; c_inline_y := false; c_ref_xy := 0%%Z; c_ref_yx := 0%%Z; c_sql := false |}, OBad)" % case["ckind"]
+        sqlran = bool(case.get("sql")) and case["ckind"] != 2
+        inp = "ICmp {| c_kind := %d; c_inline_x := %s; c_inline_y := %s; c_ref_xy := (%d)%%Z; c_ref_yx := (%d)%%Z; c_sql := %s |}" % (
+            case["ckind"], cq_bool(c["inline_x"]), cq_bool(c["inline_y"]), c["ref_xy"], c["ref_yx"], cq_bool(sqlran))
+        obs = "OCmp {| oc_xy := %s; oc_yx := %s; oc_tuple_xy := (%d)%%Z; oc_tuple_yx := (%d)%%Z; oc_sql_distinct := %d; oc_sql_first := %d |}" % (
+            _cq_oz(c["xy"]), _cq_oz(c["yx"]), c["tuple_xy"], c["tuple_yx"], c["sql_distinct"], c["sql_first"])
+        return "(%s, %s)" % (inp, obs)
     if case["kind"] == "api":
         a = o.get("api")
         if a is None:
@@ -206,9 +287,39 @@ def coq_case(case, out):
     return "(%s, %s)" % (inp, obs)
 
 
+def _wide_before(b, limit=4000):
+    """number of multi-byte runes starting before byte offset `limit`"""
+    return sum(1 for i, x in enumerate(b[:limit]) if x >= 0xC0)
+
+
 def classify(case, out):
     o = out.get("obs") or {}
     t = []
+    if case["kind"] == "cmp":
+        c = o.get("cmp")
+        if c is None:
+            return ["panic"]
+        t.append("cmp")
+        t.append(["cmp-collated-ci", "cmp-collated-bin", "cmp-json"][case["ckind"]])
+        t.append({-1: "ref-lt", 0: "ref-eq", 1: "ref-gt"}[c["ref_xy"]])
+        if case["ckind"] == 0:
+            xb, yb = bytes.fromhex(case["xs"]), bytes.fromhex(case["ys"])
+            if max(len(xb), len(yb)) > 4000 and _wide_before(xb) != _wide_before(yb):
+                t.append("collated-mixed-width-across-chunk")
+                if max(len(xb), len(yb)) > 8000:
+                    t.append("collated-over-two-chunks")
+            if c["inline_x"] and c["inline_y"] and min(len(xb), len(yb)) > 4000:
+                t.append("collated-all-four-forms")
+            if case.get("sql"):
+                t.append("cmp-sql")
+        if case["ckind"] == 2:
+            if c["inline_x"] and not c["inline_y"] and c["len_y"] <= 4000 and c["ref_xy"] != 0:
+                t.append("json-inline-left-oob-right")
+            if c["len_y"] > 4000 or c["len_x"] > 4000:
+                t.append("json-multi-chunk")
+        if c.get("notes"):
+            t.append("cmp-notes")
+        return t
     if case["kind"] == "api":
         a = o.get("api")
         if a is None:
@@ -250,7 +361,7 @@ def classify(case, out):
 
 
 def nontrivial(case, out):
-    return case["kind"] == "sql" or case["x"]["n"] > 0 or case["y"]["n"] > 0
+    return case["kind"] in ("sql", "cmp") or case["x"]["n"] > 0 or case["y"]["n"] > 0
 
 
 def _sgn(a, b):
@@ -259,6 +370,8 @@ def _sgn(a, b):
 
 def match_known(finding, case, out):
     o = out.get("obs") or {}
+    if case["kind"] == "cmp":
+        return False
     if finding.get("key") == KEY_CMP and case["kind"] == "api":
         a = o.get("api")
         if a is None or not a["read_ok"]:
@@ -322,6 +435,8 @@ def match_known(finding, case, out):
 
 
 def shrink_candidates(case):
+    if case["kind"] == "cmp":
+        return
     if case["kind"] == "sql":
         vs = case["vals"]
         for i in range(len(vs)):
